@@ -204,15 +204,15 @@ PROPS = {
     'C13': dict(
         title='Specifications pickle by reference and unpickle to the equivalent live object',
         contracts=['C13_pickle', 'C01_decl'], falsifier='C13', modes=['py', 'c'], level='other',
-        only={'C01_decl': ['declarations.py:ProvidesClass.__init__', 'declarations.py:ClassProvides.__init__', 'declarations.py:Provides',
+        only={'C01_decl': ['declarations.py:ProvidesClass.__init__', 'declarations.py:ClassProvides.__init__',
                            'declarations.py:classImplementsOnly']},
         level_text="The five __reduce__ methods (InterfaceClass, Implements, the empty declaration, Provides, ClassProvides) are "
                    "verified from their real bodies: each reduces to a name or to (callable, arguments) that, under the assumed model "
                    "of pickle, rebuild the identical object (interface: its own name; class specification: implementedBy(its class), "
                    "also for classes declared with an *only* form) or the same declaration (factory/class with the recorded "
                    "arguments). The recorded arguments are verified to be exactly the constructor arguments (ProvidesClass.__init__, "
-                   "ClassProvides.__init__), the shared-declaration factory Provides returns a declaration built from exactly its "
-                   "arguments (cache keyed by them), and classImplementsOnly records the class the specification pickles as. Equality/"
+                   "ClassProvides.__init__; the shared-declaration factory Provides, keyed by its arguments, is verified under C01), "
+                   "and classImplementsOnly records the class the specification pickles as. Equality/"
                    "hash of the result, histories and the byte content of pickles are checked bounded through the real pickle (all protocols).",
         level_note="pickle itself is an assumed external contract; the link 'recorded arguments = current declaration' is bounded.",
         explanation='reductions proved over an assumed pickle model; round trips through the real pickle bounded',
